@@ -17,10 +17,18 @@
  *      every region / stride / format; unsupported formats draw nothing;
  *      regions not cutting a double-width/size character equal the full-page
  *      rendering                                                (c16_render.h)
+ *  (d) one export context per module serves p6 further exports of this and of
+ *      a second page, to all targets in any order, with option changes, some
+ *      of the targets failing (stream failing after k bytes, /dev/full,
+ *      read-only stream, missing directory): failures are reported, every
+ *      other export equals the output of a fresh context, nothing leaks
+ *                                                               (c16_reuse.h)
  *
  * params: p0 mem sizes for text/html, p1 mem sizes for ppm/png/xpm,
  *         p2 regions per page, p3 print-region calls per page,
- *         p4 "all sizes" threshold (bytes), p5 every Nth page: all regions
+ *         p4 "all sizes" threshold (bytes), p5 every Nth page: all regions,
+ *         p6 exports per reused context
+ * mode letters switch parts off: E (a), P print-region, R (c), U (d)
  */
 #include "vf.h"
 #include <string.h>
@@ -37,6 +45,7 @@
 #include "c16_text.h"
 #include "c16_exp.h"
 #include "c16_render.h"
+#include "c16_reuse.h"
 
 static const char *const modules[5] = { "text", "html", "ppm", "png", "xpm" };
 
@@ -127,7 +136,7 @@ static int run_case(struct vf_rng *r, long idx)
 {
 	int ok, m;
 	long p0 = vf_param[0] ? vf_param[0] : 40, p1 = vf_param[1] ? vf_param[1] : 12, p2 = vf_param[2] ? vf_param[2] : 60,
-	     p3 = vf_param[3] ? vf_param[3] : 6, p4 = vf_param[4], p5 = vf_param[5];
+	     p3 = vf_param[3] ? vf_param[3] : 6, p4 = vf_param[4], p5 = vf_param[5], p6 = vf_param[6] ? vf_param[6] : 8;
 
 	cor_new_decoder();
 	ok = vf_chance(r, 3, 4) ? cor_gen_ttx(r) : cor_gen_cc(r);
@@ -161,6 +170,8 @@ static int run_case(struct vf_rng *r, long idx)
 		}
 	if (!strchr(vf_mode, 'P')) oracle_print(r, p3);
 	if (!strchr(vf_mode, 'R')) oracle_render(r, p2, p5 > 0 && (idx % p5) == 0 && PG.rows * PG.columns > 500);
+
+	if (!strchr(vf_mode, 'U')) oracle_reuse(r, p6);
 
 	vf_phase("vbi_decoder_delete");
 	cor_end();
@@ -199,6 +210,26 @@ static void selftest(void)
 		else for (i = 0; i <= 10; i++)
 			if (!strstr(oi->menu.str[i], text_menu_charsets[i])) vf_fail("selftest:C16", "text.format menu entry %d is '%s', table says %s", i, oi->menu.str[i], text_menu_charsets[i]);
 		vbi_export_delete(e);
+	}
+	/* the failing stream: accepts exactly `limit` bytes, then reports an error */
+	{
+		struct ru_sink sk;
+		FILE *fp = ru_sink_open(&sk, 5, ENOSPC);
+		size_t w;
+		if (!fp) vf_fail("selftest:C16", "fopencookie failed");
+		else {
+			setvbuf(fp, NULL, _IONBF, 0);
+			w = fwrite("abc", 1, 3, fp);
+			if (w != 3 || sk.refused || sk.accepted != 3) vf_fail("selftest:C16", "failing stream refused bytes below its limit");
+			errno = 0;
+			w = fwrite("defgh", 1, 5, fp);
+			if (w >= 5 || !sk.refused || sk.accepted != 5 || memcmp(sk.data, "abcde", 5) || !ferror(fp) || errno != ENOSPC)
+				vf_fail("selftest:C16", "failing stream: fwrite returned %zu, accepted %zu, refused %d, ferror %d, errno %d", w, sk.accepted, sk.refused, ferror(fp), errno);
+			if (fprintf(fp, "x") >= 0 && !ferror(fp)) vf_fail("selftest:C16", "failing stream accepts data beyond its limit");
+			fclose(fp);
+			if (sk.accepted != 5) vf_fail("selftest:C16", "failing stream accepted %zu bytes, limit 5", sk.accepted);
+		}
+		free(sk.data);
 	}
 	/* convert-back oracle on hand vectors */
 	{
